@@ -16,6 +16,7 @@
 #include <shark/ObjectiveFunctions/Loss/ZeroOneLoss.h>
 #include <shark/Models/LinearModel.h>
 #include <shark/Models/NeuronLayers.h>
+#include <shark/Models/ConcatenatedModel.h>
 #include <shark/Core/Random.h>
 #include <cmath>
 #include <shark/Data/Dataset.h>
@@ -121,14 +122,19 @@ static std::unique_ptr<ModelT> makeModel(std::string const& mtype, std::size_t n
 	if (mtype == "logistic") return std::unique_ptr<ModelT>(new LinearModel<RealVector, LogisticNeuron>(nin, nout, true));
 	throw std::runtime_error("unknown model " + mtype);
 }
+// two linear layers with offset, concatenated: bilinear in the parameters
+struct Net2Holder {
+	LinearModel<> l1, l2; ConcatenatedModel<RealVector> net;
+	Net2Holder(std::size_t nin, std::size_t nh, std::size_t nout) : l1(nin, nh, true), l2(nh, nout, true), net(l1 >> l2) {}
+};
 
 template<class L>
 std::string runEF(char kind, AbstractLoss<L, RealVector>& loss, std::vector<RealVector> const& in, std::vector<L> const& lab,
                   std::vector<std::size_t> const& sz, DV const& params, std::size_t nin, std::size_t nout,
-                  DV const& weights, std::string const& reg, double lam, DV const& mask, std::string const& mtype, bool fd, long seed) {
+                  DV const& weights, std::string const& reg, double lam, DV const& mask, std::string const& mtype, bool fd, long seed, ModelT* ext = 0) {
 	std::ostringstream o;
-	std::unique_ptr<ModelT> mp = makeModel(mtype, nin, nout);
-	ModelT& model = *mp;
+	std::unique_ptr<ModelT> mp; if (!ext) mp = makeModel(mtype, nin, nout);
+	ModelT& model = ext ? *ext : *mp;
 	RealVector p(params.size()); for (std::size_t i = 0; i != params.size(); ++i) p(i) = params[i];
 	if (p.size() != model.numberOfParameters()) throw std::runtime_error("parameter count");
 	LabeledData<RealVector, L> ds(mkData(in, sz), mkData(lab, sz));
@@ -281,6 +287,18 @@ static std::string handle(std::string const& line) {
 		DV mask = kind == 'R' ? extra : DV();
 		if (b.vv) o << runEF<RealVector>(kind, *b.vv, rows(in, n, nin), rows(labs, n, labs.size() / (n ? n : 1)), sz, params, nin, nout, weights, reg, lam, mask, mtype, kind == 'F', (long)T);
 		else if (b.cv) o << runEF<unsigned int>(kind, *b.cv, rows(in, n, nin), uints(labs), sz, params, nin, nout, weights, reg, lam, mask, mtype, kind == 'F', (long)T);
+		else throw std::runtime_error("loss not usable with a model");
+		return o.str();
+	}
+	if (kind == 'N') {   // N name param T nin nhid nout | sizes | params | inputs | labels : ErrorFunction on LinearModel >> LinearModel
+		std::size_t T = std::stoul(s[0][3]), nin = std::stoul(s[0][4]), nh = std::stoul(s[0][5]), nout = std::stoul(s[0][6]);
+		auto sz = sizes(s[1]); DV params = nums(s[2]), in = nums(s[3]), labs = nums(s[4]);
+		omp_set_num_threads((int)T);
+		LossBox b = makeLoss(name, param, DV());
+		std::size_t n = in.size() / nin;
+		Net2Holder h(nin, nh, nout);
+		if (b.vv) o << runEF<RealVector>(kind, *b.vv, rows(in, n, nin), rows(labs, n, labs.size() / (n ? n : 1)), sz, params, nin, nout, DV(), "", 0, DV(), "net2", false, 0, &h.net);
+		else if (b.cv) o << runEF<unsigned int>(kind, *b.cv, rows(in, n, nin), uints(labs), sz, params, nin, nout, DV(), "", 0, DV(), "net2", false, 0, &h.net);
 		else throw std::runtime_error("loss not usable with a model");
 		return o.str();
 	}
